@@ -7,7 +7,7 @@ D=/tmp/seedrepo
 if [ ! -d $D ]; then rsync -a --exclude target /repo/ $D/; fi
 cd $D && git checkout -q -- . && git clean -qfd conformance-tests/tests >/dev/null 2>&1
 # sync to /repo HEAD content (tracked files) in case /repo moved
-rsync -a --exclude target --exclude .git /repo/ $D/ >/dev/null
+rsync -a --delete --exclude target /repo/ $D/ >/dev/null
 cp $SD/demo.rs conformance-tests/tests/seed_demo_$NAME.rs
 demo_without=$(cargo test -p conformance-tests --test seed_demo_$NAME --offline 2>&1 | grep -E "^test result" | head -1)
 if ! git apply --check $SD/patch.diff 2>/dev/null; then echo "{\"name\":\"$NAME\",\"applies\":false}"; rm -f conformance-tests/tests/seed_demo_$NAME.rs; exit 0; fi
